@@ -8,12 +8,15 @@ import (
 	"io"
 	"net"
 	"net/netip"
+	"os"
 	"strings"
+	"syscall"
 
 	"ssvharness/internal/common"
 
 	"github.com/database64128/shadowsocks-go/conn"
 	"github.com/database64128/shadowsocks-go/netio"
+	"github.com/database64128/shadowsocks-go/router"
 	"github.com/database64128/shadowsocks-go/socks5"
 	"github.com/database64128/shadowsocks-go/ssnone"
 	"go.uber.org/zap"
@@ -274,9 +277,7 @@ func finish(req netio.ConnRequest, sc *scriptConn, act string, o *obs) {
 		o.pong = bytes.Equal(sc.out[before:], []byte("PONG\x00\xff"))
 		return
 	case strings.HasPrefix(act, "A"):
-		var code int
-		fmt.Sscanf(act[1:], "%d", &code)
-		if err := req.Abort(conn.DialResult{Code: conn.DialResultCode(code)}); err != nil {
+		if err := req.Abort(dialResultOf(act)); err != nil {
 			o.note = "abort: " + err.Error()
 		}
 	}
@@ -517,10 +518,10 @@ func oracleS5S(c Case, o obs) (key, detail string) {
 				return "socks5-write-after-handshake", "bytes written through the returned conn were altered"
 			}
 		case strings.HasPrefix(c.Act, "A"):
-			var code int
-			fmt.Sscanf(c.Act[1:], "%d", &code)
+			// the reply is a function of the dial result CODE only, whatever error value accompanies it
+			code := int(dialResultOf(c.Act).Code)
 			if rp := take(10); !bytes.Equal(rp, zeroBoundReply(rfcReply(code))) {
-				return "socks5-reply-code", fmt.Sprintf("dial result %d must be reported as reply %d, wrote %x", code, rfcReply(code), rp)
+				return "socks5-reply-code", fmt.Sprintf("dial result %s (code %d) must be reported as reply %d, wrote %x", c.Act[1:], code, rfcReply(code), rp)
 			}
 		}
 	case in.Cmd == 3 && c.UDP:
@@ -676,8 +677,61 @@ func genAct(r *common.Rng) string {
 	case 3:
 		return "N"
 	default:
-		return fmt.Sprintf("A%d", common.Pick(r, []int{0, 13, 100, 101, 102, 103, 104, 110, 111, 112, 113, 254, 255, r.Intn(256)}))
+		code := common.Pick(r, []int{0, 13, 100, 101, 102, 103, 104, 110, 111, 112, 113, 254, 255, r.Intn(256)})
+		errnos := []int{13, 100, 101, 102, 103, 104, 110, 111, 112, 113, 1, 32}
+		var e string
+		switch r.Intn(9) {
+		case 0:
+			return fmt.Sprintf("A%d", code)
+		case 1:
+			e = "nil"
+		case 2: // the matching errno
+			e = fmt.Sprintf("errno%d", code)
+		case 3: // a NON-matching errno
+			e = fmt.Sprintf("errno%d", common.Pick(r, errnos))
+		case 4: // wrapped errno (net.OpError / os.SyscallError / fmt %w), matching or not
+			e = fmt.Sprintf("werrno%d", common.Pick(r, append(errnos, code)))
+		case 5:
+			e = common.Pick(r, []string{"dns", "dnsnf"})
+		case 6:
+			e = "rejected"
+		default:
+			e = fmt.Sprintf("opaque%d", r.Intn(3))
+		}
+		return fmt.Sprintf("A%d:%s", code, e)
 	}
+}
+
+// dialResultOf builds the conn.DialResult of an act `A<code>[:<err>]`: every Code x Err combination a caller
+// (relay, router) can hand to Abort.
+func dialResultOf(act string) conn.DialResult {
+	var code, k int
+	spec := strings.SplitN(act[1:], ":", 2)
+	fmt.Sscanf(spec[0], "%d", &code)
+	dr := conn.DialResult{Code: conn.DialResultCode(code)}
+	if len(spec) == 1 {
+		return dr
+	}
+	e := spec[1]
+	switch {
+	case e == "nil":
+	case e == "dns":
+		dr.Err = &net.DNSError{Err: "server misbehaving", Name: "x.test", IsTemporary: true}
+	case e == "dnsnf":
+		dr.Err = &net.DNSError{Err: "no such host", Name: "x.test", IsNotFound: true}
+	case e == "rejected":
+		dr.Err = router.ErrRejected
+	case strings.HasPrefix(e, "werrno"):
+		fmt.Sscanf(e[6:], "%d", &k)
+		dr.Err = fmt.Errorf("dial failed: %w", &net.OpError{Op: "dial", Net: "tcp", Err: os.NewSyscallError("connect", syscall.Errno(k))})
+	case strings.HasPrefix(e, "errno"):
+		fmt.Sscanf(e[5:], "%d", &k)
+		dr.Err = syscall.Errno(k)
+	case strings.HasPrefix(e, "opaque"):
+		fmt.Sscanf(e[6:], "%d", &k)
+		dr.Err = []error{errors.New("connection refused by policy"), errors.New("no route"), io.ErrUnexpectedEOF}[k%3]
+	}
+	return dr
 }
 
 func genEarly(r *common.Rng) []byte {
